@@ -165,12 +165,18 @@ BMP_KWONLY = {"send_scp", "set_led"}
 def plan(tier):
     n = 110 if tier == "quick" else 9000
     return [("mc", n * len(PLANS)), ("nesting", 3 * n), ("connections", 2 * n),
-            ("bmp", 4 * n), ("inventory", 1)]
+            ("bmp", 4 * n), ("inventory", 1),
+            ("deep", 6 if tier == "quick" else 120)]
 
 
 def gen(cls, idx, rng, tier):
     if cls == "inventory":
         return dict(kind="inventory")
+    if cls == "deep":
+        # "all nestings": hundreds of blocks open at once
+        depth = rng.choice([40, 255, 256, 257, 300, 700])
+        return dict(kind="deep", depth=depth, seed=rng.randrange(1 << 30),
+                    raise_at=rng.choice([None, None, depth // 2, depth - 1]))
     if cls == "mc":
         # every method x every plan in rotation (floors are met by
         # construction, not by luck)
@@ -723,6 +729,65 @@ def run_nesting(case, ctx):
     ctx.mark_nontrivial()
 
 
+def run_deep(case, ctx):
+    import contextlib
+    import random
+    r = fresh(1)
+    mc = r.mc
+    rng = random.Random(case["seed"])
+    model = [dict(mc.get_context_arguments())]
+
+    def merged():
+        out = {}
+        for d in model:
+            out.update(d)
+        return out
+
+    def look(where):
+        ctx.hit("deep_nesting_probe")
+        m_ = merged()
+        check(mc.get_context_arguments() == m_, "context-arguments",
+              "%s: controller has %r, model %r" %
+              (where, mc.get_context_arguments(), m_), depth=len(model) - 1)
+        if all(k in m_ for k in ("x", "y", "p")):
+            mark = len(r.net.log)
+            mc.read(0x60000000, 4)
+            d = dests(sent(r, mark))
+            check(d and d[0][0] == (m_["x"], m_["y"], m_["p"]),
+                  "wrong-destination", "%s: %r vs %r" % (where, d[:1], m_),
+                  depth=len(model) - 1)
+
+    class Boom(Exception):
+        pass
+    try:
+        with contextlib.ExitStack() as stack:
+            for i in range(case["depth"]):
+                # the outermost blocks name what the inner ones leave alone
+                if i == 0:
+                    args = dict(x=rng.randrange(3), y=rng.randrange(3),
+                                p=rng.randrange(1, 17), app_id=77)
+                else:
+                    args = {a: rng.randrange(3) if a in "xy" else
+                            rng.randrange(1, 17)
+                            for a in rng.sample(["x", "y", "p"],
+                                                rng.randint(0, 1))}
+                stack.enter_context(mc(**args))
+                model.append(args)
+                if i in (0, 254, 255, 256, case["depth"] - 1) or \
+                        rng.random() < .02:
+                    look("%d blocks open" % (i + 1))
+                if case["raise_at"] == i:
+                    raise Boom()
+    except Boom:
+        ctx.hit("exception_exit")
+    except Exception as e:
+        raise Violation("unexpected-exception", "leaving %d nested blocks: "
+                        "%s: %s" % (len(model) - 1, type(e).__name__, e))
+    del model[1:]
+    look("all blocks left")
+    ctx.mark_nontrivial()
+
+
 # --------------------------------------------------------- connections
 def run_connections(case, ctx):
     w, h, root = case["w"], case["h"], tuple(case["root"])
@@ -930,6 +995,8 @@ def run(case, ctx):
         run_mc(case, ctx)
     elif k == "nesting":
         run_nesting(case, ctx)
+    elif k == "deep":
+        run_deep(case, ctx)
     elif k == "connections":
         run_connections(case, ctx)
     elif k == "bmp":
